@@ -2,6 +2,7 @@ import ElvisVerif.Model.TcpSys
 import ElvisVerif.Lemmas.TcbInv
 import ElvisVerif.Lemmas.TcbNoop
 import ElvisVerif.Lemmas.TcbWindow
+import ElvisVerif.Lemmas.TcbOneshot
 /-!
 # C17 — A TCP endpoint withstands arbitrary segments from its peer address
 
@@ -211,6 +212,104 @@ example : ∃ s : Tcb, s.state = .Established ∧ Wf s ∧ HeapIdle s ∧
     have : k < 1 := by simpa [forge, Segment.segLen, Ctl.ofNat] using hk
     have hk' : k = 0 := by omega
     subst hk'; decide
+
+/-! ### … and the queued ACK has no influence on anything until it is sent
+
+`pre p s` (`Lemmas/TcbOneshot.lean`) is `s` with the headers `p` in front of its one-shot queue.
+Every call that neither drains (`segments`) nor clears (`abort`) that queue commutes with `pre p`;
+`segments()` puts `p` in front of its output, and the only other trace `p` leaves is that the
+retransmission timer is re-armed (the code re-arms it whenever it sends anything at all). -/
+
+/-- calls that neither drain nor clear the one-shot queue -/
+def Call.KeepsOneshot : Call → Prop
+  | .segments => False
+  | .abort => False
+  | _ => True
+
+/-- every such call commutes with `pre p` -/
+theorem c17_oneshot_commutes (p : List Hdr) (s : Tcb) (c : Call) (hc : c.KeepsOneshot) :
+    (pre p s).call c = (s.call c).map (Option.map (pre p)) := by
+  cases c with
+  | segmentArrives seg =>
+    simp only [Tcb.call, pre_segmentArrives]
+    cases s.segmentArrives seg with
+    | error e => rfl
+    | ok q => obtain ⟨u, r⟩ := q; cases r <;> rfl
+  | advanceTime ms =>
+    simp only [Tcb.call, pre_advanceTime]
+    cases s.advanceTime ms with
+    | error e => rfl
+    | ok q => obtain ⟨u, r⟩ := q; cases r <;> rfl
+  | send bytes => simp only [Tcb.call, pre_send]; rfl
+  | receive => simp only [Tcb.call, pre_receive]; rfl
+  | close =>
+    simp only [Tcb.call, pre_close]
+    cases s.close with
+    | error e => rfl
+    | ok q => obtain ⟨u, r⟩ := q; rfl
+  | abort => exact absurd hc id
+  | segments => exact absurd hc id
+
+/-- … hence so does every run of such calls -/
+theorem c17_oneshot_commutes_run (p : List Hdr) (s : Tcb) (cs : List Call) (hcs : ∀ c ∈ cs, c.KeepsOneshot) :
+    Tcb.run (some (pre p s)) cs = (Tcb.run (some s) cs).map (Option.map (pre p)) := by
+  induction cs generalizing s with
+  | nil => rfl
+  | cons c cs ih =>
+    unfold Tcb.run
+    rw [c17_oneshot_commutes p s c (hcs c (by simp))]
+    cases s.call c with
+    | error e => rfl
+    | ok r =>
+      cases r with
+      | none => simp only [Except.map, Option.map]; cases cs <;> rfl
+      | some u =>
+        simp only [Except.map, Option.map]
+        exact ih u (fun c hc => hcs c (by simp [hc]))
+
+/-- at the next `segments()` the queued headers go out in front of the normal output; the state
+    afterwards is the one reached without them, with the retransmission timer re-armed -/
+theorem c17_oneshot_at_segments (p : List Hdr) (s : Tcb) (hp : p ≠ []) :
+    (pre p s).segments =
+      match s.segments with
+      | .error e => .error e
+      | .ok (s', out) =>
+        .ok ({ s' with timeouts.retransmission := RTO }, (p.map fun h => (⟨h, []⟩ : Segment)) ++ out) :=
+  pre_segments p s hp
+
+/-- **An unacceptable segment, and everything after it.**  The TCB after the segment and the TCB
+    before it are `pre (q ++ l) c` and `pre q c` of one common core `c` (`l` = the ≤ 1 header queued
+    in reply); along every run of calls up to the next `segments()`/`abort` the two stay that way:
+    connection state, receive sequence space, buffered and parked data (everything `receive()`
+    returns), send sequence space, retransmission queue and timers coincide at every step. -/
+theorem c17_unacceptable_noop_until_segments (s : Tcb) (h : Wf s) (hi : HeapIdle s) (seg : Segment)
+    (hp : seg.text.length ≤ MAX_PAYLOAD) (hu : Unacceptable s seg) :
+    ∃ s' c l, s.segmentArrives seg = .ok (s', .Ok) ∧ l.length ≤ 1 ∧
+      s = pre s.outgoing.oneshot c ∧ s' = pre (s.outgoing.oneshot ++ l) c ∧
+      ∀ cs : List Call, (∀ k ∈ cs, k.KeepsOneshot) →
+        Tcb.run (some s) cs = (Tcb.run (some c) cs).map (Option.map (pre s.outgoing.oneshot)) ∧
+        Tcb.run (some s') cs = (Tcb.run (some c) cs).map (Option.map (pre (s.outgoing.oneshot ++ l))) := by
+  obtain ⟨s', e, oo⟩ := c17_unacceptable_noop s h hi seg hp hu
+  obtain ⟨l, hl, ho⟩ := oo.oneshot
+  have hs : s = pre s.outgoing.oneshot { s with outgoing.oneshot := [] } := by
+    cases s with
+    | mk lp rp mtu ini st snd rcv out inc tmo => cases out; simp [pre]
+  have hs' : s' = pre (s.outgoing.oneshot ++ l) { s with outgoing.oneshot := [] } := by
+    cases s' with
+    | mk lp' rp' mtu' ini' st' snd' rcv' out' inc' tmo' =>
+      cases out' with
+      | mk text' rtx' one' =>
+        have h1 := oo.localPort; have h2 := oo.remotePort; have h3 := oo.mtu; have h4 := oo.initiation
+        have h5 := oo.state; have h6 := oo.snd; have h7 := oo.rcv; have h8 := oo.incoming
+        have h9 := oo.timeouts; have h10 := oo.text; have h11 := oo.retransmit
+        simp only at h1 h2 h3 h4 h5 h6 h7 h8 h9 h10 h11 ho
+        subst h1 h2 h3 h4 h5 h6 h7 h8 h9 h10 h11 ho
+        simp [pre]
+  refine ⟨s', { s with outgoing.oneshot := [] }, l, e, hl, hs, hs', fun cs hcs => ⟨?_, ?_⟩⟩
+  · conv => lhs; rw [hs]
+    exact c17_oneshot_commutes_run _ _ cs hcs
+  · conv => lhs; rw [hs']
+    exact c17_oneshot_commutes_run _ _ cs hcs
 
 /-! ## new data stays inside the window the peer advertised
 
